@@ -118,3 +118,11 @@ pub(crate) fn stub_condvar_wait<'a, T>(
 ) -> crate::sync::MutexGuard<'a, T> {
     panic!("blocking wait reached in a single-handle harness")
 }
+
+/// Stub for `Zalsa::event_cold` in harnesses whose `Zalsa` has no event callback: the real function
+/// unwraps the (absent) callback, i.e. panics; encoding it drags `Event::new` -> `thread::current()`
+/// (thread-local runtime, stderr formatting) into the formula whenever CBMC cannot resolve the
+/// `is_some()` test on a heap-allocated `Zalsa` by constant propagation.
+pub(crate) fn stub_event_cold(_z: &crate::zalsa::Zalsa, _event: &dyn Fn() -> crate::Event) {
+    panic!("event callback invoked although none is installed")
+}
